@@ -306,7 +306,7 @@ def psi_tables(ctx):
         if fmt == ["UPSTREAM"]:
             ok, why = True, []
             for pos, (e, key) in enumerate(zip(els, KEYS)):
-                m = re.search(r"sto\w+\((\w+)\[1\]", e)
+                m = re.search(r"sto\w+\(\*?(\w+)\[1\]", e)
                 if not m:
                     ok = False
                     why.append("field %d is %s" % (pos, e[:40]))
@@ -758,22 +758,6 @@ def run(ctx):
     t = " ".join(Xg(gc.nodes[r]["val"]) for r in returns(gc) if "val" in gc.nodes[r])
     ctx.check(("Oomd::Fs::readDirAt(this->fd(), " in t or "Oomd::Fs::readDirAt(this->cgroup_dir_, " in t) and ".dirs" in t.replace("->->", "->").replace("->", "."), "children-from-held-fd", "provenance", gc.loc(), "children are the directories listed through the held fd",
               "children are " + t[:120])
-
-
-def const_int(fn, i):
-    """Integer value of expression i if the front end could fold it (literals, constexpr names, arithmetic over them)."""
-    n = fn.nodes[fn.strip(i)]
-    if "cval" in n:
-        return int(n["cval"])
-    if n["k"] == "lit" and n.get("lk") in ("int", "integer") or (n["k"] == "lit" and re.match(r"^-?\d+[uUlL]*$", str(n.get("v", "")))):
-        try:
-            return int(re.sub(r"[uUlL]+$", "", str(n.get("v"))), 0)
-        except ValueError:
-            return None
-    if n["k"] == "un" and n.get("op") == "-":
-        v = const_int(fn, n["sub"])
-        return -v if v is not None else None
-    return None
 
 
 def _disjuncts(fn, i):
